@@ -103,6 +103,23 @@ Proof.
     + lia.
 Qed.
 
+(* the same with a postcondition on the value the first parser returns *)
+Definition Returns {A} (p : P A) (Post : A -> Prop) : Prop :=
+  forall i c r a c', p i c = (Ok r a, c') -> Post a.
+
+Lemma W_bind_strict_post {A B} n s2 (p : P A) (k : A -> P B) (Post : A -> Prop) :
+  W n true p -> Returns p Post -> (forall a m, (m < n)%nat -> Post a -> W m s2 (k a)) -> W n true (bind p k).
+Proof.
+  intros Hp HR Hk i c Hc Hi. unfold bind. destruct (Hp i c Hc Hi) as [H1 H2].
+  destruct (p i c) as [[r a|e m|s|] c'] eqn:E; simpl in *; auto; try tauto.
+  assert (length r < n)%nat as Hr by lia.
+  destruct (Hk a (length r) Hr (HR _ _ _ _ _ E) r c' H2 (le_n _)) as [H3 H4].
+  split; [|exact H4].
+  destruct (k a r c') as [[r2 b|e2 m2|s2'|] c2]; simpl in *; auto.
+  - destruct s2; lia.
+  - lia.
+Qed.
+
 (* strict continuation after a weak first step *)
 Lemma W_bind_then_strict {A B} n (p : P A) (k : A -> P B) :
   W n false p -> (forall a, W n true (k a)) -> W n true (bind p k).
@@ -215,6 +232,15 @@ Proof.
   intros t m Hm. apply W_bind with (s2 := false); [apply W_seq_tokens_weak|]. intro ts. apply W_ret.
 Qed.
 
+Lemma seq_tokens_len tys : Returns (seq_tokens tys) (fun ts => length ts = length tys).
+Proof.
+  induction tys as [|ty tys IH]; intros i c r ts c' H; simpl in H.
+  - unfold ret in H. inversion H; reflexivity.
+  - unfold bind in H. destruct (exp_token ty i c) as [[r1 t|e m|s|] c1]; try discriminate.
+    destruct (seq_tokens tys r1 c1) as [[r2 ts2|e m|s|] c2] eqn:E; try discriminate.
+    unfold ret in H. inversion H; subst. simpl. f_equal. eapply IH. exact E.
+Qed.
+
 Lemma W_sep_tokens_go n item sep fuel : forall acc i c, CacheOK c -> (length i <= n)%nat -> (length i < fuel)%nat ->
   res_ok true (length i) (fst (sep_tokens_go fuel item sep acc i c)) /\
   CacheOK (snd (sep_tokens_go fuel item sep acc i c)).
@@ -324,28 +350,50 @@ Proof.
   subst. eauto.
 Qed.
 
-Lemma W_until_go {A} n ss (stop : P tok) (p : P A) : W n ss stop -> W n true p -> forall fuel acc i c,
+Definition until_post {A} (n : nat) (r : res (list A * option tok)) : Prop :=
+  match r with
+  | Ok rest (_, Some _) => (length rest < n)%nat      (* a stop token was consumed *)
+  | Ok rest (_, None) => rest = []                     (* ran to the end of the input *)
+  | _ => True
+  end.
+
+Lemma W_until_go {A} n (stop : P tok) (p : P A) : W n true stop -> W n true p -> forall fuel acc i c,
   CacheOK c -> (length i <= n)%nat -> (length i < fuel)%nat ->
-  res_ok false (length i) (fst (until_go fuel stop p acc i c)) /\ CacheOK (snd (until_go fuel stop p acc i c)).
+  res_ok false (length i) (fst (until_go fuel stop p acc i c)) /\ CacheOK (snd (until_go fuel stop p acc i c)) /\
+  until_post (length i) (fst (until_go fuel stop p acc i c)).
 Proof.
-  intros Hs Hp. induction fuel as [|f IH]; intros acc i c Hc Hi Hf; [lia|]. cbn [sep_tokens_go sep_list_rec repeat_go until_go until_strict_go until_no_match_go binops_go].
-  destruct i as [|t i']; [cbn [fst snd res_ok length]; auto|].
+  intros Hs Hp. induction fuel as [|f IH]; intros acc i c Hc Hi Hf; [lia|].
+  cbn [until_go].
+  destruct i as [|t i']; [cbn [fst snd res_ok length until_post]; auto|].
   destruct (Hs (t :: i') c Hc Hi) as [S1 S2].
-  destruct (stop (t :: i') c) as [[r0 t0|e0 m0|s0|] c0]; cbn [fst snd res_ok length] in *; auto; try tauto.
-  - split; [destruct ss; lia|auto].
+  destruct (stop (t :: i') c) as [[r0 t0|e0 m0|s0|] c0]; cbn [fst snd res_ok length until_post] in *; auto; try tauto.
+  - split; [lia|auto].
   - destruct (Hp (t :: i') c0 S2 Hi) as [H1 H2].
     destruct (p (t :: i') c0) as [[r a|e m|s'|] c1]; cbn [fst snd res_ok length] in *; auto; try tauto.
-    + destruct (IH (a :: acc) r c1 H2) as (H5 & H6); try lia. split; [|exact H6].
-      destruct (until_go f stop p (a :: acc) r c1) as [[r3 a3|e3 m3|s3|] c3]; cbn [fst snd res_ok length] in *; auto; lia.
-    + pose proof (skip_after_error_len (t :: i') e ltac:(discriminate) H1) as Hsk. simpl in Hsk.
-      destruct (IH acc (skip_after_error (t :: i') e) _ (CacheOK_add_diag (diag_at e m) c1 H2)) as (H5 & H6); try lia.
-      split; [|exact H6].
-      destruct (until_go f stop p acc (skip_after_error (t :: i') e) (add_diag (diag_at e m) c1)) as [[r3 a3|e3 m3|s3|] c3];
-        cbn [fst snd res_ok length] in *; auto; lia.
+    + destruct (IH (a :: acc) r c1 H2) as (H5 & H6 & H7); try lia. split; [|split; [exact H6|]].
+      * destruct (until_go f stop p (a :: acc) r c1) as [[r3 a3|e3 m3|s3|] c3]; cbn [fst snd res_ok length] in *; auto; lia.
+      * destruct (until_go f stop p (a :: acc) r c1) as [[r3 [l3 [t3|]]|e3 m3|s3|] c3]; cbn [fst snd until_post length] in *; auto; lia.
+    + pose proof (skip_after_error_len (t :: i') e ltac:(discriminate) H1) as Hsk. cbn [length] in Hsk.
+      destruct (IH acc (skip_after_error (t :: i') e) _ (CacheOK_add_diag (diag_at e m) c1 H2)) as (H5 & H6 & H7); try lia.
+      split; [|split; [exact H6|]].
+      * destruct (until_go f stop p acc (skip_after_error (t :: i') e) (add_diag (diag_at e m) c1)) as [[r3 a3|e3 m3|s3|] c3];
+          cbn [fst snd res_ok length] in *; auto; lia.
+      * destruct (until_go f stop p acc (skip_after_error (t :: i') e) (add_diag (diag_at e m) c1)) as [[r3 [l3 [t3|]]|e3 m3|s3|] c3];
+          cbn [fst snd until_post length] in *; auto; lia.
 Qed.
 
-Lemma W_until {A} n ss (stop : P tok) (p : P A) : W n ss stop -> W n true p -> W n false (until_w_ctx stop p).
-Proof. intros Hs Hp i c Hc Hi. unfold until_w_ctx. eapply W_until_go; eauto. Qed.
+Lemma W_until {A} n (stop : P tok) (p : P A) : W n true stop -> W n true p -> W n false (until_w_ctx stop p).
+Proof.
+  intros Hs Hp i c Hc Hi. unfold until_w_ctx.
+  destruct (W_until_go n stop p Hs Hp (S (length i)) [] i c Hc Hi) as (H1 & H2 & _); auto.
+Qed.
+
+Lemma until_w_ctx_post {A} n (stop : P tok) (p : P A) : W n true stop -> W n true p ->
+  forall i c, CacheOK c -> (length i <= n)%nat -> until_post (length i) (fst (until_w_ctx stop p i c)).
+Proof.
+  intros Hs Hp i c Hc Hi. unfold until_w_ctx.
+  destruct (W_until_go n stop p Hs Hp (S (length i)) [] i c Hc Hi) as (_ & _ & H3); auto.
+Qed.
 
 Lemma W_until_strict_go {A} n ss (stop : P tok) (p : P A) : W n ss stop -> W n true p -> forall fuel acc i c,
   CacheOK c -> (length i <= n)%nat -> (length i < fuel)%nat ->
@@ -444,4 +492,55 @@ Proof.
   intros Hs Hp Hn i c Hc Hi. unfold on_slice.
   destruct (Hp slice c Hc Hs) as [H1 H2]. specialize (Hn slice c).
   destruct (p slice c) as [[r a|e m'|s'|] c1]; cbn [fst snd res_ok length] in *; auto; tauto.
+Qed.
+
+(* ---------- value postconditions relative to the input bound ---------- *)
+Definition ReturnsN {A} (n : nat) (p : P A) (Post : A -> Prop) : Prop :=
+  forall i c r a c', (length i <= n)%nat -> p i c = (Ok r a, c') -> Post a.
+
+Lemma W_bind_postN {A B} n s2 (p : P A) (k : A -> P B) (Post : A -> Prop) :
+  W n false p -> ReturnsN n p Post -> (forall a, Post a -> W n s2 (k a)) -> W n s2 (bind p k).
+Proof.
+  intros Hp HR Hk i c Hc Hi. unfold bind. destruct (Hp i c Hc Hi) as [H1 H2].
+  destruct (p i c) as [[r a|e m|s|] c'] eqn:E; simpl in *; auto; try tauto.
+  assert (length r <= n)%nat as Hr by lia.
+  destruct (Hk a (HR _ _ _ _ _ Hi E) r c' H2 Hr) as [H3 H4]. split; [|exact H4].
+  destruct (k a r c') as [[r2 b|e2 m2|s2'|] c2]; simpl in *; auto.
+  - destruct s2; lia.
+  - lia.
+Qed.
+
+Lemma take_until_go_body_len tys l acc :
+  (length (snd (fst (take_until_go tys l acc))) <= length l + length acc)%nat.
+Proof.
+  revert acc; induction l as [|t l IH]; intro acc; simpl.
+  - rewrite rev_length. destruct acc; simpl; lia.
+  - destruct (existsb (tt_eqb (tty t)) tys); simpl.
+    + rewrite rev_length. lia.
+    + specialize (IH (t :: acc)). simpl in IH. lia.
+Qed.
+
+Lemma take_until_body_len n tys : ReturnsN n (take_until tys) (fun a => (length (fst a) <= n)%nat).
+Proof.
+  intros i c r a c' Hi H. unfold take_until in H.
+  pose proof (take_until_go_body_len tys i []) as Hl.
+  destruct (take_until_go tys i []) as [[rest body] term]. inversion H; subst. simpl in *. lia.
+Qed.
+
+(* ---------- parsers that cannot fail ---------- *)
+Lemma NoErr_ret {A} (a : A) : NoErr (ret a).
+Proof. intros i c. exact I. Qed.
+Lemma NoErr_with_ctx f : NoErr (with_ctx f).
+Proof. intros i c. exact I. Qed.
+Lemma NoErr_bind {A B} (p : P A) (k : A -> P B) : NoErr p -> (forall a, NoErr (k a)) -> NoErr (bind p k).
+Proof.
+  intros Hp Hk i c. unfold bind. specialize (Hp i c).
+  destruct (p i c) as [[r a|e m|s|] c']; simpl in *; auto. apply Hk.
+Qed.
+Lemma NoErr_repeat {A} (p : P A) : NoErr (repeat_w_ctx p).
+Proof.
+  intros i c. unfold repeat_w_ctx. generalize (S (length i)) as fuel. generalize (@nil A) as acc.
+  intros acc fuel. revert acc i c. induction fuel as [|f IH]; intros acc i c; [exact I|].
+  cbn [repeat_go]. destruct i as [|t i']; [exact I|].
+  destruct (p (t :: i') c) as [[r a|e m|s'|] c1]; try apply IH; exact I.
 Qed.
